@@ -16,4 +16,4 @@ grep -E "^(VIOLATION|OK|INCONCLUSIVE|KNOWN)" /tmp/mutant.out | head -5
 grep -E "^\s+\S+_test.go:[0-9]+: (\[rapid\] failed|[A-Z0-9]+:)" /tmp/mutant.out | head -3 | cut -c1-400
 echo "exit=$rc"
 git -C /repo checkout -- .
-cp /tmp/mutant.out /tmp/mutant.last.out; rm -rf /verif/replays/$id/* 2>/dev/null
+cp /tmp/mutant.out /tmp/mutant.last.out; rm -rf /verif/replays/$id 2>/dev/null
